@@ -22,7 +22,7 @@ RULE = ("(a) all 37 built-in crops x a fixed dense lattice (enumerated completel
         "steps x ET0 {0.1,1,3,5,8,12,20} x early-senescence flag; Tmin/Tmax -30..60 C in 1.5 C steps; the three degree-day methods; "
         "time 0..3 x maturity in 120 steps; CO2 250..2500 ppm in 26 steps through model initialisation and through the season-start "
         "path; (b) Hypothesis floats for the same arguments plus perturbed canopy parameters (CC0, CCx, CGC, CDC). Oracles: range, "
-        "monotonicity (adjacent lattice points / generated pairs), inverse (growth curve o time-to-reach-cover = id), independence of "
+        "monotonicity (adjacent lattice points / generated pairs), inverse (growth curve o time-to-reach-cover = id on the whole open range of covers, incl. directed covers within 1e-3 .. 1e-5 of CCx; inverse strictly increasing), independence of "
         "the growth curve from CCx0 (called as the model does with CCx0 in {CCx/0.98, /0.9, /0.7, /0.5}, fine time grid around the "
         "half-cover time), neutral point "
         "(fCO2(369.41)=1), agreement of the two fCO2 code paths. One evaluation per argument tuple. Non-trivial tuple: the function "
@@ -30,7 +30,7 @@ RULE = ("(a) all 37 built-in crops x a fixed dense lattice (enumerated completel
 ASSUMPTIONS = [
     "functions are called directly (aquacrop.solution.*) with the parameters of Crop(name); the CO2 factor is read from the model's season crop after initialisation with CO2(constant_conc=True, current_concentration=c)",
     "tolerances: 1e-12 on ranges and monotonicity, 1e-9 on the inverse",
-    "the inverse is required for CC0 < c < 0.98 CCx (the property's range)",
+    "the inverse is required for every cover CC0 < c <= CCx - 1e-6 (the growth curve approaches CCx asymptotically; closer to CCx the subtraction CCx - c loses the digits the 1e-9 comparison needs); covers up to 0.98 CCx come from the time lattice, covers above from directed points CCx(1-r), CCx-g down to a gap of 1e-5; the inverse must also be strictly increasing in the cover",
 ]
 BUDGET = {"quick": 3200, "thorough": 64000}
 EXHAUSTIVE_NOTE = "sub-space (a) (37 crops x fixed lattice) is enumerated completely in every run; sub-space (b) is sampled"
@@ -183,6 +183,27 @@ def check_canopy(res, name, cc0, ccx, cgc, cdc, times, keys, tag=""):
                 res.fail("growth_curve_inverse", "%s%s: time-to-reach-cover(%.9g) = %.9g, growth curve there = %.9g (original time %.9g)" % (name, tag, v, treq, back, t))
                 return n
             keys.add("%s/grow%s/%.4f" % (name, tag, t))
+    # covers chosen directly (not through a time): the whole open range up to just below CCx, where the time grid
+    # puts no point -- the inverse must reproduce the cover and be strictly increasing in it
+    covers = sorted(set([ccx * (1.0 - r) for r in (0.45, 0.3, 0.1, 0.03, 0.021, 0.019, 0.01, 3e-3, 1e-3, 5e-4, 1e-4, 1e-5)] +
+                        [ccx - g for g in (2e-3, 1.5e-3, 9e-4, 5e-4, 1e-4, 1e-5)] + [cc0 * f for f in (1.5, 3.0, 10.0)]))
+    prevc = prevt = None
+    for v in covers:
+        if not (cc0 * (1.0 + 1e-9) < v <= ccx - 1e-6):
+            continue
+        treq = float(cc_required_time(v, cc0, ccx, cgc, cdc, "CGC"))
+        back = float(cc_development(cc0, ccx, cgc, cdc, treq, "Growth", ccx))
+        n += 1
+        if not abs(back - v) <= 1e-9:
+            res.fail("growth_curve_inverse", "%s%s: time-to-reach-cover(%.9g) = %.9g, growth curve there = %.9g (CCx %.9g)" % (name, tag, v, treq, back, ccx))
+            return n
+        if prevt is not None and not treq > prevt:
+            res.fail("inverse_not_increasing", "%s%s: time-to-reach-cover(%.9g) = %.9g is not above time-to-reach-cover(%.9g) = %.9g (CCx %.9g)" % (
+                name, tag, v, treq, prevc, prevt, ccx))
+            return n
+        prevc, prevt = v, treq
+        if v >= 0.98 * ccx:
+            keys.add("%s/inv-top%s/%.9f" % (name, tag, v))
     prev = None
     for t in times:
         v = float(cc_development(cc0, ccx, cgc, cdc, t, "Decline", ccx))
